@@ -1193,6 +1193,13 @@ struct ssl
 
     unsigned char sessionIdLen;
     unsigned char sessionId[SSL_MAX_SESSION_ID_SIZE];
+    uint32 sessionCacheRef;           /* Servers: 1 + index of the session cache
+                                         entry this connection holds a reference
+                                         on (matrixRegisterSession or
+                                         matrixResumeSession), 0 if none.  The
+                                         sessionId alone does not tell: it can be
+                                         a value echoed from the ClientHello
+                                         (ticket resumption, TLS 1.3) */
     sslSessionId_t *sid;
     char *expectedName;               /* Clients: The expected cert subject name
                                               passed to NewClient Session
